@@ -11,12 +11,31 @@ PROP = "C10"
 
 
 def entry_readers(ctx):
-    """Bodies that read a WAL handle (FS_READ on class WAL) - the segment reader."""
+    """The record reader(s): for every body that reads a WAL handle (FS_READ on class WAL), the outermost inherent
+    method of the same type that (alone) calls it - `read_header` / `read_payload` helpers belong to the reader that
+    calls them.  Returns {reader path: [read sites]} (sites of the original program)."""
+    prog = ctx.prog
     out = {}
     for e in ctx.fx.of_kind("FS_READ"):
-        if "WAL" in e.classes:
-            out.setdefault(e.site.body.path, []).append(e.site)
+        if "WAL" not in e.classes:
+            continue
+        cur = e.site.body
+        for _ in range(4):
+            callers = prog.callers_index().get(cur.path, [])
+            if len(callers) != 1 or callers[0][1] != "direct":
+                break
+            cb = callers[0][0].body
+            if cb.raw.get("impl_trait") or cb.is_closure or cur.argc < 1 or cb.argc < 1 or \
+                    prog.adt_of(cb.locals[1])[0] != prog.adt_of(cur.locals[1])[0]:
+                break
+            cur = cb
+        out.setdefault(cur.path, []).append(e.site)
     return out
+
+
+def reader_view(ctx, path):
+    """Flat view of a record reader (its private helpers inlined)."""
+    return ctx.flat(ctx.prog.bodies[path])
 
 
 def hash_fns(ctx):
@@ -43,10 +62,12 @@ def rules(ctx, tier):
     r2 = Rule("R2", "a short payload is an error (only a short header may end the log)",
               "a record cut in the middle of its payload is treated as the clean end of the log: the operations "
               "after the cut are silently lost while the open succeeds")
-    for p, sites in sorted(readers.items()):
-        b = prog.bodies[p]
+    for p, sites0 in sorted(readers.items()):
+        kb = prog.bodies[p]
+        b = reader_view(ctx, p)
+        sites = [fs for s0 in sites0 for fs in ctx.flat_sites_of(b, s0)]
         sl = Slicer(ctx.world, b)
-        rf = must.rf(b)
+        rf = ctx.rf(b)
         # Ok(Some(entry)) returns
         accepts = []
         for bb in b.normal_blocks():
@@ -138,6 +159,16 @@ def rules(ctx, tier):
                 continue
             rf = must.rf(b)
             sl = Slicer(ctx.world, b)
+            # `self.read_next().transpose()`: Ok(None) -> None, Ok(Some(v)) -> Some(Ok(v)), Err(e) -> Some(Err(e))
+            ret = sl.leaves_of_place({"l": 0, "p": []})
+            if ret and all(l[0] == "call" and (l[1] or "").endswith("Result::transpose") for l in ret):
+                inner = set()
+                for l in ret:
+                    inner |= sl.leaves_of_operand(b.blocks[l[2]]["term"]["args"][0])
+                if inner and all(x[0] == "call" and x[2] == csite.bb for x in inner):
+                    r.ok("adaptor-tests", b, "%s hands the reader's result on with Result::transpose (errors stay errors)" % b.path)
+                    r.ok("adaptor-keeps-error", b, "on a reader error %s yields Some(Err(e)) (transpose)" % b.path)
+                    continue
             errs = rf.err_edges_of(csite.bb)
             r.check(bool(errs), "adaptor-tests", b, "%s branches on the reader's result" % b.path,
                     "%s does not branch on the reader's result" % b.path)
@@ -297,16 +328,19 @@ def end_of_log_rule(ctx, rid):
     readers = entry_readers(ctx)
     wbounds = None
     for p in sorted(readers):
-        b = prog.bodies[p]
+        b = reader_view(ctx, p)
         sl = Slicer(ctx.world, b)
-        rf = must.rf(b)
+        rf = ctx.rf(b)
         # Ok exits that carry no record: `_0 = Ok(<no aggregate of a crate type>)`
         ends = []
         for bb in b.normal_blocks():
             for st in b.stmts(bb):
-                if st["k"] == "assign" and st["lhs"]["l"] == 0 and not st["lhs"]["p"] and st["rv"]["k"] == "agg" \
-                        and st["rv"].get("vn") == "Ok" and st["rv"]["ops"]:
+                # (any local: an inlined helper builds its own `Ok(None)` before the reader hands it on)
+                if st["k"] == "assign" and not st["lhs"]["p"] and st["rv"]["k"] == "agg" \
+                        and st["rv"].get("def") == "std::result::Result" and st["rv"].get("vn") == "Ok" and st["rv"]["ops"]:
                     lv = sl.leaves_of_operand(st["rv"]["ops"][0])
+                    if st["lhs"]["l"] != 0 and not (lv and all(l[0] == "agg" and str(l[1]).endswith("Option::None") for l in lv)):
+                        continue
                     if not any(l[0] == "agg" and l[1] in prog.adts for l in lv):
                         ends.append((bb, st.get("line") or b.blocks[bb]["span"]["line"]))
         r.check(bool(ends), "end-exits", b, "%d 'no more records' exit(s) in %s" % (len(ends), p),
@@ -352,13 +386,17 @@ def end_of_log_rule(ctx, rid):
                     t = b.blocks[sw]["term"]
                     pl = place_of(t["discr"])
                     dty = prog.types[b.locals[pl["l"]]] if pl is not None and not pl["p"] else {}
-                    if dty.get("k") == "prim" and dty.get("s") != "bool":
+                    if kind == "discr":
+                        dl = sl.leaves_of_place(c[1])
+                        if dl and any(l[0] == "agg" and str(l[1]).endswith("Option::None") for l in dl):
+                            why = "hands on the verdict of an inlined helper (whose own exits are judged above/below)"
+                        else:
+                            why = "the header read reported an error that is then identified as end of file"
+                    elif dty.get("k") == "prim" and dty.get("s") != "bool":
                         # switchInt(value) [0: ...]: a comparison with the listed constants
                         vals = [v for v, tg in t["targets"] if tg == tgt]
                         if vals and all(v == 0 for v in vals):
                             why = "a header field is zero"
-                    elif kind == "discr":
-                        why = "the header read reported an error that is then identified as end of file"
                     elif kind == "call" and (c[1] or "").split("::")[-1] in ("is_empty",):
                         why = "nothing left to read"
                 r.check(why is not None, "end-of-log:%s" % kind, b,
